@@ -370,6 +370,18 @@ func c16Results(t *testing.T, ds []*indexData) map[string][]string {
 }
 
 func c16Compare(t *testing.T, step string, ins, outs []*indexData, replay map[string]any) {
+	// "tombstoned repositories are dropped": none may be carried into an output shard
+	for _, d := range outs {
+		for _, md := range d.repoMetaData {
+			if md.Tombstone {
+				rp := map[string]any{"step": step, "repo": md.Name, "shard": d.String()}
+				for k, v := range replay {
+					rp[k] = v
+				}
+				vfOracleFail(step+":tombstoned-not-dropped", "tombstoned repository "+md.Name+" was copied into output shard "+d.String(), rp)
+			}
+		}
+	}
 	a, b := c16Results(t, ins), c16Results(t, outs)
 	for _, name := range vfSortedKeys(a) {
 		if strings.Join(a[name], "\n") != strings.Join(b[name], "\n") {
@@ -402,6 +414,8 @@ func c16Merge(t *testing.T, dir string, ins []*c16Loaded, step string, class []s
 	tmp, dst, err := Merge(dir, files...)
 	if err != nil {
 		vfCase(cTuple("0%N", cList(inCoq), "true", "(@nil oshard)"), vfKey(step, inCoq), true, append(class, "merge-error"), map[string]any{"err": err.Error()})
+		// the generated inputs are valid shards with live repositories: refusing to merge them loses them
+		vfOracleFail(step+":error", "index.Merge fails on well-formed input shards: "+err.Error(), map[string]any{"step": step, "specs": specs, "err": err.Error()})
 		return nil
 	}
 	if err := os.Rename(tmp, dst); err != nil {
@@ -427,6 +441,7 @@ func c16Explode(t *testing.T, dir string, in *c16Loaded, class []string, specs a
 	names, err := explode(dir, in.inf)
 	if err != nil {
 		vfCase(cTuple("1%N", cList([]string{inCoq}), "true", "(@nil oshard)"), vfKey("explode", inCoq), true, append(class, "explode-error"), map[string]any{"err": err.Error()})
+		vfOracleFail("explode:error", "explode fails on a well-formed compound shard: "+err.Error(), map[string]any{"step": "explode", "specs": specs, "err": err.Error()})
 		return nil
 	}
 	var outs []*c16Loaded
